@@ -53,11 +53,15 @@ class Gateway:
             if self.proc.poll() is not None:
                 raise RuntimeError("gateway exited at start: " + self.log_tail())
             try:
-                c = socket.create_connection(("127.0.0.1", self.port), timeout=0.5)
-                c.close()
-                return self
-            except OSError:
-                time.sleep(0.025)
+                # an HTTP exchange, not just a TCP connect: a connect to a port of the ephemeral range on which nobody listens
+                # yet can succeed as a TCP self-connection
+                c = http.client.HTTPConnection("127.0.0.1", self.port, timeout=0.5)
+                c.request("GET", "/")
+                r = c.getresponse(); r.read(); c.close()
+                if r.status > 0:
+                    return self
+            except (OSError, http.client.HTTPException):
+                time.sleep(0.02)
         raise RuntimeError("gateway did not start")
 
     def alive(self):
